@@ -150,6 +150,16 @@ class EndpointMethodGenerator:
             writer.write_line(escape_docstring_text(f"- {content_type}"))
         writer.write_line('"""')
 
+        # Serialize path parameters before URL construction, as the single-content-type method does
+        # (dates, enums and other non-string values must reach the URL in their wire form)
+        path_params = [p for p in ordered_params if p.get("param_in") == "path"]
+        if path_params:
+            context.add_import(f"{context.core_package_name}.utils", "DataclassSerializer")
+            for p in path_params:
+                path_var_name = NameSanitizer.sanitize_method_name(p["name"])
+                writer.write_line(f"{path_var_name} = DataclassSerializer.serialize({path_var_name})")
+            writer.write_line("")
+
         # Generate URL construction with sanitized path variables
         formatted_path = re.sub(
             r"{([^}]+)}", lambda m: f"{{{NameSanitizer.sanitize_method_name(str(m.group(1)))}}}", op.path
